@@ -14,7 +14,9 @@ from stix2.datastore import (
 from stix2.datastore.filters import Filter, FilterSet, apply_common_filters
 from stix2.parsing import parse
 from stix2.serialization import fp_serialize
-from stix2.utils import format_datetime, get_type_from_id, parse_into_datetime
+from stix2.utils import (
+    format_datetime, get_type_from_id, parse_into_datetime, timestamp_sort_key,
+)
 
 
 def _timestamp2filename(timestamp):
@@ -688,7 +690,9 @@ class FileSystemSource(DataSource):
             # the same type.)
             is_versioned = "modified" in all_data[0]
             if is_versioned:
-                stix_obj = sorted(all_data, key=lambda k: k['modified'])[-1]
+                stix_obj = sorted(
+                    all_data, key=lambda k: timestamp_sort_key(k['modified']),
+                )[-1]
             else:
                 stix_obj = all_data[0]
         else:
